@@ -26,7 +26,9 @@ def gen_blocks(rng):
         blocks.append((tr, body))
     return blocks
 
-SLUR_TEXTS = ["l4 c&d e", "e&g a", "Slur(1) c&e g", "c&c d", "Slur(0,24) d&f", "c&d&e f", "BR(12) c&e", "@3 c", "y1,5 c d", "Slur(2) e&g", "PB(100) c", "r4 g&a", "Slur(3) c&e&g"]
+SLUR_TEXTS = ["l4 c&d e", "e&g a", "Slur(1) c&e g", "c&c d", "Slur(0,24) d&f", "c&d&e f", "BR(12) c&e", "@3 c", "y1,5 c d", "Slur(2) e&g", "PB(100) c", "r4 g&a", "Slur(3) c&e&g",
+              # chords that collect no lettered note (empty, a rest, numbered notes only): the chord is over at its closing quote
+              "l4 'n36n42' n38", "c ''2 d", "'r' e", "'' c", "l8 e 'r4' f 'gb'4"]
 def gen_text_blocks(rng):
     """blocks of slurred groups, on tracks that share MIDI channels (tracks 0 and 1 do by default; others by CH=): what a track writes for
     its own slur (bend range, bends) must not depend on what another track on that channel wrote"""
